@@ -870,6 +870,9 @@ impl<A: Subject> Runner<A> {
         if r.is_ok() {
           self.tainted = false;
           self.dead.clear();
+          if or & O_DISCARDED != 0 && (post.discarded != 0 || a.discarded() != 0) {
+            v.push(Viol { flag: O_DISCARDED, class: "discarded-after-clear".into(), msg: format!("discarded() = {} after clear (header {})", a.discarded(), post.discarded) });
+          }
           if or & O_REWIND != 0 {
             let dof = self.cfg.data_offset();
             if post.allocated as usize != dof || !post.nodes.is_empty() || post.discarded != 0 || post.min_segment_size != pre.min_segment_size {
@@ -1373,6 +1376,17 @@ impl<A: Subject> Runner<A> {
         }
         if or & O_RELEASE != 0 && newn.len() > 1 {
           v.push(Viol { flag: O_RELEASE, class: "released-twice".into(), msg: format!("{}: {} new segments", op.short(), newn.len()) });
+        }
+        // C20 / C10: a released range becomes a segment exactly when, behind the padding to the next multiple of 8
+        // and the node word, it has at least one byte and at least the minimum segment size in force
+        if or & (O_DISCARDED | O_FREELIST) != 0 && self.cfg.fl != Fl::None && bcap > 0 && boff > 0 {
+          let pad = (8 - boff % 8) % 8;
+          let m = self.min_in_force.unwrap_or(self.cfg.min_seg) as usize;
+          let listed = pad + 8 < bcap && bcap - pad - 8 >= m;
+          if listed != !newn.is_empty() {
+            let flag = if or & O_DISCARDED != 0 { O_DISCARDED } else { O_FREELIST };
+            v.push(Viol { flag, class: "release-listed-or-discarded".into(), msg: format!("{}: release of [{},{}) with minimum segment size {} in force: {} (discarded {} -> {}), expected {}", op.short(), boff, boff + bcap, m, if newn.is_empty() { "not listed" } else { "listed" }, pre.discarded, post.discarded, if listed { "a segment" } else { "discarded" }) });
+          }
         }
         // "once": what one release adds to discarded() is at most what the handle owned (all of it when nothing is
         // listed, the node overhead when a segment is)
